@@ -246,7 +246,7 @@ def erase_cfg(steps, slots, variant, emit):
 
 def c20(pid, tier, seed, selftest=False):
     rep = Report(pid, tier, seed)
-    rep.rule = ("every program of n construct / clone / drop / drop-while-the-thread-unwinds-from-a-panic / drop-two-handles-concurrently steps over 3 slots and the constructors {PrivateKey::generate, "
+    rep.rule = ("every program of n construct / clone / explicit zeroize / clone_from into a live object / drop / drop-while-the-thread-unwinds-from-a-panic / drop-two-handles-concurrently steps over 3 slots and the constructors {PrivateKey::generate, "
                 "PrivateKey::try_from, PayloadKey::new (boxed)}, enumerated by TLC from Erase.tla (ErasedAtRelease, LiveUntouched), is "
                 "executed on the real containers with each secret's heap block registered in the harness allocator, which inspects the "
                 "bytes at the moment the block is released; objects still live at the end are dropped in slot order; "
@@ -270,8 +270,9 @@ def c20(pid, tier, seed, selftest=False):
         raise ToolError("Erase model (SharedLastWipes) violates " + r2.violated)
     if thorough or selftest:
         for v, inv in [("NoDropErase", "ErasedAtRelease"), ("EraseCopy", "ErasedAtRelease"), ("SharedClone", "LiveUntouched"),
-                       ("SharedRacy", "ErasedAtRelease"), ("SkipWipeWhenPanicking", "ErasedAtRelease")]:
-            r = run_tlc(pid, "neg-" + v, "Erase", erase_cfg(3, 3, v, False), workers=1, timeout=120)
+                       ("SharedRacy", "ErasedAtRelease"), ("SkipWipeWhenPanicking", "ErasedAtRelease"), ("StaleWipedFlag", "ErasedAtRelease")]:
+            # (the stale flag needs construct, construct, zeroize, clone_from, drop)
+            r = run_tlc(pid, "neg-" + v, "Erase", erase_cfg(5 if v == "StaleWipedFlag" else 3, 3, v, False), workers=4 if v == "StaleWipedFlag" else 1, timeout=600)
             rep.add_model("neg-" + v, r, "deviation must break " + inv)
             if r.violated != inv:
                 raise ToolError("negative variant %s: got %s" % (v, r.violated))
